@@ -18,6 +18,7 @@ grep -v '^#' "$index" | while IFS=$'\t' read -r patch props; do
     [ "$code" = "exit=1" ] && verdict=CAUGHT
     [ "$code" = "exit=2" ] && verdict=UNDECIDED
     [ "$code" = "exit=3" ] && verdict=PATCH-FAILED
+    echo "$res" | grep -q "^patch failed" && verdict=PATCH-FAILED
     printf '%s\t%s\t%s\t%s\n' "$patch" "$p" "$verdict" "$classes" | tee -a "$out"
   done
 done
